@@ -137,7 +137,9 @@ def run(rep):
     # larger power-of-two widths at depth 8 (each row needs log2(width) fresh hash bits):
     # every row balanced, neighbouring and far-apart row pairs independent
     sub_keys = keys[256 : 256 + 32768]
-    for Wp in (32, 64, 128):
+    # the "coarse 8x8" pair test works for any width that is a multiple of 8; the thorough tier
+    # adds more powers of two and widths with an odd factor
+    for Wp in ((32, 64, 128) if rep.tier == "quick" else (8, 32, 64, 128, 256, 512, 1024, 24, 40, 200, 1000)):
         colsp = columns("linear", Wp, D, sub_keys)
         rep.evals(len(sub_keys) * D)
         dof = Wp - 1
